@@ -47,6 +47,13 @@ func VerifC16CleanRestart() {
 	// first incarnation
 	p1, _ := kitRtmpSession()
 	vrt.Assert(g.AddRtmpPubSession(p1) == nil, "first publisher accepted")
+	// optionally a subscriber that is attached during the first incarnation and simply stays
+	var stayConn = kitConnNil()
+	if vrt.Param("stay") == 1 {
+		var ss *rtmp.ServerSession
+		ss, stayConn = kitRtmpSession()
+		g.AddRtmpSubSession(ss)
+	}
 	_, pub1 := run(vrt.Param("pat1"), vrt.Param("n1"), "a")
 	for _, m := range pub1 {
 		g.OnReadRtmpAvMsg(m)
@@ -101,5 +108,18 @@ func VerifC16CleanRestart() {
 	// the second incarnation's consumer sees exactly what a consumer of a fresh stream would see
 	c01Check("restart", got, pub2, kinds2, join, cfg.RtmpConfig.GopNum)
 	vrt.Assert(len(httpHooks) == 2 && httpHooks[1].stops == 0 && httpHooks[1].msgs == n2, "second incarnation has its own hook")
+	if vrt.Param("stay") == 1 {
+		// the subscriber that stayed attached gets the whole second incarnation (it is not left waiting for a
+		// key frame that an audio-only successor never sends)
+		rs := &refChunkReader{chunkSize: rtmp.LocalChunkSize}
+		vrt.Assert(rs.readAll(stayConn.All()), "staying subscriber: log is a well-formed chunk stream")
+		vrt.Assert(len(rs.out) >= n2, "staying subscriber: receives the second incarnation")
+		if len(rs.out) >= n2 {
+			tail := rs.out[len(rs.out)-n2:]
+			for i := 0; i < n2; i++ {
+				vrt.Assert(c01Same(c01Recv{typ: tail[i].typ, ts: tail[i].ts, payload: tail[i].payload}, pub2[i]), "staying subscriber: second incarnation delivered in full, in order")
+			}
+		}
+	}
 	vrt.Cover("end")
 }
